@@ -6,12 +6,12 @@ fix_commits = subprocess.run(["git", "-C", "/repo", "log", "--format=%H %s"], ca
 fix_commits = [l.split()[0] for l in fix_commits if " fix:" in l]
 TEXT = {
  "C01": ("theorems over all element trees and environments (properties/C01.v: shape invariant of the collector by induction over the tree, no CaretDepthError) + correspondence of the nesting shapes of all 15 part attributes with /repo on generated packages and the corpus + shape oracle on /repo's values + source translation: _get_elem_depth (BFS = min distance, 1..4), get_par_strings/_join_runs, and the caret methods of DepthCollector in a heap embedding refine the model (alias stack = rightmost spine)", "8 C01"),
- "C02": ("refinement theorem: a paragraph of inline content yields exactly one record whose tokens are label + marker + the children's contributions in order; merge keeps the atom sequence (partial, counterexample proved); correspondence of all plain strings; reference-rendering oracle per paragraph", "8 C02"),
+ "C02": ("refinement theorem: a paragraph of inline content yields exactly one record whose tokens are label + marker + the children's contributions in order; merge keeps the atom sequence (partial, counterexample proved); correspondence of all plain strings; reference-rendering oracle per paragraph + source translation: _is_content / has_content and the content-tag set equal the model", "8 C02"),
  "C03": ("theorems on the view functions (address-wise agreement of the three forms, concatenation of document*, text) for arbitrary nested input + correspondence of all views + the four equalities evaluated on /repo's values + source translation: get_par_strings, _join_runs, flatten_text equal the model", "8 C03"),
  "C04": ("grid theorems for every tiling (n x m, duplicate / blank, agreement off merges) + END-TO-END refinement: walking a whole tbl/tr/tc/p table from any reachable state appends exactly the grid function's table, each position holding the records of the source cell covering it (GridWalk; side condition refuted without it) + correspondence + cell-by-cell grid oracle", "8 C04"),
- "C05": ("lineage theorem for every directly nested table walked from any state, free-paragraph theorem, element/style from the paragraph refinement + correspondence of lineage/style/element + oracle on /repo's records, predicates and get_headings + source translation: is_tbl/is_tr/is_tc equal the model", "8 C05"),
- "C06": ("merge theorems (atoms preserved, idempotent - both partial with machine-checked counterexamples for each dropped hypothesis) + correspondence at run granularity + metamorphic re-splitting oracle", "8 C06"),
- "C07": ("balance theorem for every document (nested paragraphs and link bodies included), escaping theorems, vocabulary over the regenerated formatter table, switched-off properties produce no tag + correspondence of html strings + tokenizer oracle (balance, vocabulary, escapes, projection onto plain, per-character tag sets exactly those of the source run properties) + source translation: html_open/html_close, Run.__str__, Par.run_strings equal the model and DepthCollector.escape", "8 C07"),
+ "C05": ("lineage theorem for every directly nested table walked from any state, free-paragraph theorem, element/style from the paragraph refinement + correspondence of lineage/style/element + oracle on /repo's records, predicates and get_headings + source translation: is_tbl/is_tr/is_tc and get_pStyle equal the model", "8 C05"),
+ "C06": ("merge theorems (atoms preserved, idempotent - both partial with machine-checked counterexamples for each dropped hypothesis) + correspondence at run granularity + metamorphic re-splitting oracle + source translation: _is_mergeable, _is_text_or_text_math and the merge key _elem_key equal the model for every element", "8 C06"),
+ "C07": ("balance theorem for every document (nested paragraphs and link bodies included), escaping theorems, vocabulary over the regenerated formatter table, switched-off properties produce no tag + correspondence of html strings + tokenizer oracle (balance, vocabulary, escapes, projection onto plain, per-character tag sets exactly those of the source run properties) + source translation: html_open/html_close, Run.__str__, Par.run_strings, DepthCollector.escape, namespace.qn and gather_Pr equal the model", "8 C07"),
  "C08": ("unbounded theorems for letters, Roman 1..3999 by kernel computation, counting rule for every history, sorted positions, marker layout + correspondence of the renderers and of list documents + oracle recomputing counts and marker text + source translation: the six renderers and _increment_list_counter equal the model for all arguments", "8 C08"),
  "C09": ("path-inference theorems (relative, absolute, root, own rels; the two failing classes refuted) + correspondence of file list and all attributes on re-laid-out packages + layout-invariance oracle", "8 C09"),
  "C10": ("marker theorems via the paragraph refinement (link resolved / anchor / fallback, one run, note references, note labels) + correspondence at run granularity and of utilities.get_links (regex re-implemented in Utilities.v) + oracle against relationships and get_links", "8 C10"),
@@ -21,7 +21,7 @@ TEXT = {
  "C14": ("state-machine theorems over all histories (reads return the value, cache monotone) + correspondence of outcome sequences + purity/freshness/input-untouched oracles; partial: Python heap aliasing observed only + source translation with the heap embedding: get_par_strings / _join_runs / Par.run_strings return freshly allocated lists and modify no existing cell; mutating a result cannot change the collector's represented state", "8 C14"),
  "C15": ("theorems over all histories (outcomes, never reopened, close idempotent, exit = close) + correspondence + descriptor / reopen / exception-identity oracles; partial: OS descriptors observed only", "8 C15"),
  "C16": ("theorems on the written archive (copied members exact, rewritten members = cached trees, names, duplicate refuted, second save via merge idempotence) + member-by-member correspondence + round-trip oracles", "8 C16"),
- "C17": ("node-level commutation theorem with the forced side condition, frame theorems, trailing-newline refutation + correspondence of the written archive + paragraph-wise commutation oracle", "8 C17"),
+ "C17": ("node-level commutation theorem with the forced side condition, frame theorems, trailing-newline refutation + correspondence of the written archive + paragraph-wise commutation oracle + source translation: the merge key _elem_key", "8 C17"),
  "C18": ("theorems: the whole extraction is equal under any injective renaming of namespace URIs; XML comments, PIs and inter-element whitespace are invisible to merge + walk (TriviaFacts; equation clause and prefix clause shown necessary); attribute order and other prefixes irrelevant + correspondence on six serialisation variants + invariance oracle; partial: encoding/compression live in lxml/zipfile", "8 C18"),
  "C19": ("theorems: paragraph structure independent of html setting and inline merging, html reaches the walk only through the formatter table, dup local to merged positions + correspondence of the structural projection + pairwise option oracle + the returned images mapping does not depend on the folder (Fs.v)", "8 C19"),
  "C20": ("theorems for arbitrary nested lists and all depths (complete, sorted, indexable, iter = enum, bad depth) + exhaustive small trees + wide trees compared with the model and checked directly; html map by correspondence and oracle + source translation: enum_at_depth / iter_at_depth and the eight helpers equal the model; get_html_map translated with the heap embedding never modifies a cell that existed before the call", "8 C20"),
